@@ -80,7 +80,8 @@ mut("c11-only-eoferror", "C11", HP,
 mut("c11-function-scope-shared-cursor", "C11", TP,
     '            + indent_str("ctx.inputs.append([parameters[::-1], 0])", indent + 1)',
     '            + indent_str("ctx.inputs.append([parameters[::-1], ctx.inputs[0][1]])", indent + 1)',
-    "a function's input scope starts at the program's cursor position instead of 0")
+    "NOT-A-VIOLATION: a function's input scope starts at the program's cursor position instead of 0 (still a cycle over "
+    "the call's arguments; the statement fixes neither direction nor starting point)")
 mut("c11-deferred-rewind", "C11", EL,
     "    @lazylist\n    def gen():\n        for element in itr:\n            yield safe_apply(function, element, ctx=ctx)\n",
     "    @lazylist\n    def gen():\n        saved = ctx.inputs[0][1]\n        for element in itr:\n            yield safe_apply(function, element, ctx=ctx)\n        ctx.inputs[0][1] = saved\n",
@@ -106,7 +107,8 @@ mut("c12-lambda-X-two-of-four", "C12", TP,
 mut("c12-function-X-no-stack", "C12", TP,
     '                + indent_str("ctx.context_values.pop()", indent)\n                + indent_str("ctx.stacks.pop()", indent)\n                + indent_str("return stack", indent)',
     '                + indent_str("ctx.context_values.pop()", indent)\n                + indent_str("return stack", indent)',
-    "early return from a function leaves its stack registered (the repaired defect comes back)")
+    "EQUIVALENT: the FunctionDef branch of the X lowering is dead code (the parser tags X inside @f...; with "
+    "FunctionCall, so X there is lowered to 'pass')")
 mut("c12-output-no-pop", "C12", LL,
     '            vy_print(" ⟩" if ctx.vyxal_lists else "]", end, ctx=ctx)\n        ctx.stacks.pop()\n',
     '            vy_print(" ⟩" if ctx.vyxal_lists else "]", end, ctx=ctx)\n',
@@ -142,8 +144,8 @@ mut("c13-bool-consumes", "C13", LL,
     "        try:",
     "truthiness pulls an item every time (the repaired defect comes back)")
 mut("c13-negindex-doubles", "C13", LL,
-    "                return self.listify()[position]",
-    "                self.generated += list(self)\n                return self.generated[position]",
+    "            if position < 0:\n                return self.listify()[position]",
+    "            if position < 0:\n                self.generated += list(self)\n                return self.generated[position]",
     "negative index doubles the cache (the repaired defect comes back)")
 mut("c13-reversed-tee", "C13", LL,
     "        for item in self.listify()[::-1]:\n            yield item",
@@ -243,4 +245,5 @@ mut("c19-request-offline-guard", "C19", EL,
     "        str: lambda: vy_eval(lhs, ctx) if not lhs.startswith('__') else vyxalify(eval(lhs)),\n    }.get(ts, lambda: vectorise(exp2_or_eval, lhs, ctx=ctx))()",
     "E evaluates dunder-prefixed strings with eval in either mode")
 
-MUTANTS = [m for m in M if m["what"] != "SKIP"]
+MUTANTS = [m for m in M if m["what"] != "SKIP" and not m["what"].startswith(("NOT-A-VIOLATION", "EQUIVALENT"))]
+NOT_VIOLATIONS = [m for m in M if m["what"].startswith(("NOT-A-VIOLATION", "EQUIVALENT"))]
